@@ -87,9 +87,56 @@ fn lit(c: u32, unicode: bool) -> String {
 /// C10 observable form: for every code point with a non-trivial class in either source (and, in
 /// the thorough tier, every pair within the union of both classes), `/c/i`, `/[c]/i`, `/[^c]/i`,
 /// `/(c)\1/i` against d, in the modes `i`, `iu`, `iv`.
+/// `add_icase_code_points` on INTERVALS: every interval [a, a+k] that starts at, just before or just after
+/// a code point with a case class, for several lengths k; against the closure computed from the ICU
+/// snapshot classes, and against the Lean model (`cps addicase`).
+fn c10_intervals(rep: &mut Report, f: &Fold, thorough: bool, rng: &mut Rng) {
+    let mut starts: BTreeSet<u32> = BTreeSet::new();
+    for &c in f.scf_class.keys() {
+        for d in 0..=2u32 {
+            starts.insert(c.saturating_sub(d));
+            starts.insert((c + d).min(0x10FFFF));
+        }
+    }
+    for a in starts {
+        if !thorough && a >= 0x250 && !rng.chance(1, 3) {
+            continue;
+        }
+        for k in [0u32, 1, 2, 3, 5, 8, 16, 40, 300] {
+            let b = (a + k).min(0x10FFFF);
+            let got = regress::verif::add_icase_code_points(&[(a, b)]);
+            let mut want: BTreeSet<u32> = BTreeSet::new();
+            for c in a..=b {
+                want.insert(c);
+                want.extend(f.class(c, true));
+            }
+            let mut ivs: Vec<(u32, u32)> = vec![];
+            for c in want {
+                match ivs.last_mut() {
+                    Some(l) if l.1 + 1 == c => l.1 = c,
+                    _ => ivs.push((c, c)),
+                }
+            }
+            rep.case(&format!("addicase {:x}-{:x}", a, b), got.len() > 1);
+            rep.count("addicase-intervals");
+            if got != ivs {
+                let miss = ivs.iter().flat_map(|(x, y)| *x..=*y).find(|c| !got.iter().any(|(x, y)| x <= c && c <= y));
+                rep.violation(
+                    "impl-vs-oracle:C10",
+                    format!("add_icase_code_points([{:x}-{:x}]) is not the closure under Unicode 17 simple case folding (e.g. U+{:04X} missing or extra)", a, b, miss.unwrap_or(0)),
+                    format!("F8CTX flags=iu cps={:x}.{:x}", a, b),
+                );
+            }
+            let show = |v: &[(u32, u32)]| if v.is_empty() { "-".to_string() } else { v.iter().map(|(x, y)| format!("{:x}-{:x}", x, y)).collect::<Vec<_>>().join(",") };
+            rep.tie(format!("cps addicase {:x}-{:x}", a, b), show(&got));
+        }
+    }
+}
+
 pub fn c10(rep: &mut Report, aux: &str, thorough: bool, seed: u64) {
     let f = Fold::load(aux);
     let mut rng = Rng::new(seed);
+    c10_intervals(rep, &f, thorough, &mut rng);
     let mut universe: BTreeSet<u32> = BTreeSet::new();
     universe.extend(f.scf_class.keys());
     universe.extend(f.legacy_class.keys());
